@@ -40,6 +40,8 @@ def build(tab):
             dm[name] = [pyobs.dec(c) for c in cells]
     if tab.get('rowop') is not None:
         dm = dm[list(tab['rowop'])]          # reorders / selects rows: row ids are no longer 0..n-1 in order
+    for name, cells in tab.get('post') or []:
+        dm[name] = [pyobs.dec(c) for c in cells]      # new values for the rows of a table with repeated row ids
     return dm
 
 
@@ -166,7 +168,7 @@ class C15:
             'input': inp, 'observed': observed, 'pyfail': pyfail, 'oracle': oracle, 'model': model,
             'nontrivial': bool(nontrivial),
             'sig': '%s|%s' % (op, _compact({k: v for k, v in inp.items() if k != 'tags'})),
-            'tags': [op] + list(tags) + (['rows:' + ('asis' if t.get('rowop') is None else 'reordered')] if t else []),
+            'tags': [op] + list(tags) + (['rows:' + ('asis' if t.get('rowop') is None else 'repeated-ids' if t.get('post') else 'reordered')] if t else []),
         }
 
     def rerun(self, inp):
@@ -387,7 +389,18 @@ class C15:
         if len(names) > 1 and names == sorted(names):
             names.reverse()
         mode = reorder or rng.choice(['asis', 'perm', 'sel'])
+        if mode == 'any':
+            mode = rng.choice(['asis', 'perm', 'sel', 'dup'])
         tab_cols = [[nm, kind, list(cells)] for nm, (kind, cells) in zip(names, cols)]
+        if mode == 'dup' and n >= 2:
+            # rows obtained by indexing with repeated positions (dm[[0, 0, 1]]), then given their own values
+            nbase = rng.randint(1, n - 1)
+            idx = [rng.randrange(nbase) for _ in range(n)]
+            base = [[nm, k, enc_cells([{'KMixed': 'base', 'KFloat': 0.5, 'KInt': 0}[k]] * nbase)] for nm, k, _ in tab_cols]
+            return {'n': nbase, 'cols': base, 'rowop': idx,
+                    'post': [[nm, enc_cells(cs)] for nm, _k, cs in tab_cols]}, names
+        if mode == 'dup':
+            mode = 'asis'
         if mode == 'asis' or n == 0:
             rowop = None
             nbase = n
@@ -430,7 +443,7 @@ class C15:
                 cols.append((k, self._payload(rng, n, k)))
             rng.shuffle(cols)
             widx = [i for i, c in enumerate(cols) if c[1] is ws][0]
-            tab, names = self._table(rng, n, cols, reorder)
+            tab, names = self._table(rng, n, cols, reorder or 'any')
             cases.append(self.rerun({'op': 'weight', 'tab': tab, 'wname': names[widx], 'tags': list(tags)}))
         maxn = 3
         for n in range(1, maxn + 1):
@@ -547,7 +560,7 @@ class C15:
                 cols.append((k, self._payload(rng, n, k)))
             rng.shuffle(cols)
             idx = [i for i, c in enumerate(cols) if c[1] is cells][0]
-            tab, names = self._table(rng, n, cols)
+            tab, names = self._table(rng, n, cols, 'any')
             cases.append(self.rerun({'op': 'replace', 'tab': tab, 'col': names[idx],
                                      'mapping': [[pyobs.enc(k), pyobs.enc(v)] for k, v in mapping], 'tags': tags}))
         reps = 110 if tier == 'quick' else 1500
@@ -579,7 +592,7 @@ class C15:
         def one(ncol, args, via, alias=None):
             n = rng.randint(0 if rng.random() < 0.05 else 1, 4)
             cols = [(k, self._payload(rng, n, k)) for k in [rng.choice(KINDS) for _ in range(ncol)]]
-            tab, names = self._table(rng, n, cols)
+            tab, names = self._table(rng, n, cols, 'any')
             real = []
             for a in args:
                 if a[0] == 'name':
@@ -625,7 +638,7 @@ class C15:
                 cols.append((k, self._payload(rng, n, k)))
             rng.shuffle(cols)
             idx = [i for i, c in enumerate(cols) if c[1] is cells][0]
-            tab, names = self._table(rng, n, cols)
+            tab, names = self._table(rng, n, cols, 'any')
             inp = {'op': 'z', 'tab': tab, 'col': names[idx]}
             if exact_s is not None:
                 inp['exact_s'] = [exact_s.numerator, exact_s.denominator]
@@ -678,17 +691,24 @@ class C15:
         # drop a column that the operation does not name
         for i, c in enumerate(tab['cols']):
             if c[0] not in needed and (op != 'ff') and len(tab['cols']) > 1:
-                t2 = dict(tab, cols=tab['cols'][:i] + tab['cols'][i + 1:])
+                t2 = dict(tab, cols=tab['cols'][:i] + tab['cols'][i + 1:],
+                          post=[pc for pc in (tab.get('post') or []) if pc[0] != c[0]] or None)
                 yield dict(inp, tab=t2)
         if op == 'ff' and len(tab['cols']) > 1:
             for i in range(len(tab['cols'])):
                 yield dict(inp, tab=dict(tab, cols=tab['cols'][:i] + tab['cols'][i + 1:]))
         # materialise the row order, then drop rows
-        if tab.get('rowop') is not None:
+        if tab.get('rowop') is not None and not tab.get('post'):
             ro = tab['rowop']
             t2 = {'n': len(ro), 'cols': [[c[0], c[1], [c[2][j] for j in ro]] for c in tab['cols']], 'rowop': None}
             yield dict(inp, tab=t2)
-        elif tab['n'] > 1:
+        elif tab.get('post'):
+            ro = tab['rowop']
+            for i in range(len(ro)):
+                if len(ro) > 1:
+                    yield dict(inp, tab=dict(tab, rowop=ro[:i] + ro[i + 1:],
+                                             post=[[nm, cs[:i] + cs[i + 1:]] for nm, cs in tab['post']]))
+        elif tab['n'] > 1 and tab.get('rowop') is None:
             for i in range(tab['n']):
                 t2 = {'n': tab['n'] - 1, 'cols': [[c[0], c[1], c[2][:i] + c[2][i + 1:]] for c in tab['cols']], 'rowop': None}
                 yield dict(inp, tab=t2)
